@@ -49,12 +49,14 @@ PropNames == {"verifProp", "from", "class", "import", "global", "@self"}
 \* representative existing declarations: a leaf, a base with dependants, Position, a union
 \* alternative, a params type of an envelope
 Targets == {"Color", "TextDocumentPositionParams", "Position", "MarkedStringWithLanguage", "HoverParams"}
-Marks == {"proposed", "deprecated", "since"}
+\* "notProposed": the mark written out as `"proposed": false` (the schema: "if omitted ... final" - so is false)
+Marks == {"proposed", "notProposed", "deprecated", "since"}
 \* what a textual mark (deprecated, since) says: one line; several lines; several lines broken Windows-style; text with the
 \* characters that end a comment or a string literal in one of the target languages
 MarkTexts == {"plain", "multiline", "crlf", "quotes"}
 
-TypedKinds == {"none", "suffixed", "plain"}
+\* "infix": a typeName that contains the word Request (Notification) also BEFORE its final suffix
+TypedKinds == {"none", "suffixed", "plain", "infix"}
 Edits ==
     {[k |-> "AddStructure", name |-> NewS]}
     \cup {[k |-> "AddProperty", target |-> t, name |-> n, ty |-> ty, optional |-> o] :
@@ -135,9 +137,12 @@ QuickOK(e) ==
                                \/ (e.typed = "suffixed" /\ e.params = "none" /\ e.result = "ref")
                                \/ (e.typed = "suffixed" /\ e.params = "ref" /\ e.result = "enumArray")
                                \/ (e.typed = "plain" /\ e.params = "ref" /\ e.result = "ref")
+                               \/ (e.typed = "infix" /\ e.params = "ref" /\ e.result = "orNull")
       [] e.k = "AddNotification" -> (e.typed = "suffixed" /\ e.params = "ref") \/ (e.typed = "none" /\ e.params = "none")
                                     \/ (e.typed = "plain" /\ e.params = "ref")
+                                    \/ (e.typed = "infix" /\ e.params = "none")
       [] e.k = "Mark" -> \/ (e.mark = "proposed" /\ e.on # "request" /\ e.text = "plain")
+                         \/ (e.mark = "notProposed" /\ e.text = "plain")
                          \/ (e.on = "structure" /\ e.mark = "since" /\ e.text \in {"plain", "crlf"})
                          \/ (e.on = "property" /\ e.mark = "deprecated" /\ e.text \in {"multiline", "quotes"})
                          \/ (e.on = "property" /\ e.mark = "since" /\ e.text \in {"crlf", "quotes"})
